@@ -8,15 +8,14 @@
 
    Contents
      1. what the readers return on EVERY text: read_molfile_symbols, read_molfile_simple,
-        read_graph_props (distinct labels, every unordered pair at most once, no explicit zero,
-        every atomic number has a symbol)
-     2. what they do NOT guarantee on arbitrary text, with accepted texts as witnesses: a bond from
-        an atom to itself; a negative MASS= / RAD= value
-     3. molfile_text_in_grammar / molfile_text_layout: every text that is read, has an atom, has no
-        self-bond and no non-positive stored mass / radical
-     4. the hypotheses discharged for spec-conformant files: v3000_file_in_grammar / _layout,
-        v2000_file_in_grammar / _layout (every admissible rendering of a well-formed abstract
-        molecule, LF or CR LF)
+        read_graph_props (wfg: distinct labels, no bond from an atom to itself, endpoints in range;
+        every unordered pair at most once; no explicit zero and no negative value, hence positive
+        masses / radicals; every atomic number has a symbol)
+     2. what the readers reject: a bond from an atom to itself; a negative MASS= / RAD= value
+        (two texts, rejected by computation; the general statements are ReadersNoZero section 6)
+     3. molfile_text_in_grammar / molfile_text_layout: EVERY text that is read and has an atom
+     4. spec-conformant files: v3000_file_in_grammar / _layout, v2000_file_in_grammar / _layout
+        (every admissible rendering of a well-formed abstract molecule, LF or CR LF)
      5. tucan_string_in_grammar / tucan_string_layout: every accepted string with an atom
      6. non-vacuity with the reference oracle RefCanon.ref_canon, by computation                *)
 From Coq Require Import List NArith ZArith Bool Lia Arith Permutation String.
@@ -48,7 +47,7 @@ Lemma v3000_parse_atom_line_known line a : V3000.parse_atom_line line = ok (Some
 Proof.
   unfold V3000.parse_atom_line. intros H.
   do 3 inv_step H. inv_step H.
-  inv_step H. do 4 inv_step H. inv_step H. do 3 inv_step H.
+  inv_step H. do 4 inv_step H. inv_step H. do 3 inv_step H. inv_step H.
   injection H as <-. unfold ratom_known; simpl.
   match goal with E : of_opt EOther (z_of_symbol _) = ok _ |- _ => exact (of_opt_ok _ _ _ E) end.
 Qed.
@@ -155,24 +154,16 @@ Proof.
   intros s g H. destruct (read_molfile_inv s g H) as (ats & bds & _ & Hg). exact (graph_from_molecule_simple _ _ _ Hg).
 Qed.
 
-(* Everything about the graph that holds for EVERY text the entry point accepts. *)
-Theorem read_graph_props : forall s g, V2000.read_molfile s = ok g ->
-  NoDup (labels g) /\ RoundTrip2.simple g /\ (forall x, In x (atoms g) -> nozero x) /\ known_elements g.
-Proof.
-  intros s g H. split; [exact (RZ.read_molfile_labels_nodup s g H)|]. split; [exact (read_molfile_simple s g H)|].
-  split; [|exact (read_molfile_known_elements s g H)].
-  intros x Hx. exact (proj1 (RZ.read_molfile_nozero s g H x Hx)).
-Qed.
+(* the readers reject a bond from an atom to itself (ReadersNoZero section 6): the graph is wfg *)
+Definition has_no_self_bond {P B} (m : mol P B) : Prop := forall b, In b (bonds m) -> fst (ends b) <> snd (ends b).
 
-(* with the endpoints in range (ReadersNoZero): only "no self-bond" is missing from wfg *)
-Corollary read_graph_wfg : forall s g, V2000.read_molfile s = ok g ->
-  (forall b, In b (bonds g) -> fst (ends b) <> snd (ends b)) -> wfg g.
-Proof.
-  intros s g H Hl. split; [exact (RZ.read_molfile_labels_nodup s g H)|].
-  intros b Hb. destruct (RZ.read_molfile_bonds_in_range s g H b Hb) as [H1 H2]. split; [exact (Hl b Hb)|]. split; assumption.
-Qed.
+Theorem read_graph_no_self_bond : forall s g, V2000.read_molfile s = ok g -> has_no_self_bond g.
+Proof. exact RZ.read_molfile_no_self_bond. Qed.
 
-(* no explicit zero + no negative value = positive values *)
+Theorem read_graph_wfg : forall s g, V2000.read_molfile s = ok g -> wfg g.
+Proof. exact RZ.read_molfile_wfg. Qed.
+
+(* no explicit zero + no negative value (both readers reject one) = positive values *)
 Definition nonneg_attrs {P B} (m : mol P B) : Prop :=
   forall x, In x (atoms m) -> (forall v, mass x = Some v -> (0 <= v)%Z) /\ (forall v, rad x = Some v -> (0 <= v)%Z).
 
@@ -183,25 +174,36 @@ Proof.
   split; intros v E; [specialize (Nm v E); assert (v <> 0%Z) by congruence | specialize (Nr v E); assert (v <> 0%Z) by congruence]; lia.
 Qed.
 
-Corollary read_graph_pos_attrs : forall s g, V2000.read_molfile s = ok g -> nonneg_attrs g -> pos_attrs g.
-Proof. intros s g H. apply nozero_nonneg_pos. intros x Hx. exact (proj1 (RZ.read_molfile_nozero s g H x Hx)). Qed.
+Theorem read_graph_nonneg : forall s g, V2000.read_molfile s = ok g -> nonneg_attrs g.
+Proof. exact RZ.read_molfile_nonneg. Qed.
+
+Theorem read_graph_pos_attrs : forall s g, V2000.read_molfile s = ok g -> pos_attrs g.
+Proof. exact RZ.read_molfile_positive. Qed.
+
+(* Everything about the graph that holds for EVERY text the entry point accepts: the hypotheses of
+   tucan_in_grammar / tucan_layout / tucan_total except "at least one atom". *)
+Theorem read_graph_props : forall s g, V2000.read_molfile s = ok g ->
+  wfg g /\ RoundTrip2.simple g /\ (forall x, In x (atoms g) -> nozero x) /\ pos_attrs g /\ known_elements g.
+Proof.
+  intros s g H. split; [exact (read_graph_wfg s g H)|]. split; [exact (read_molfile_simple s g H)|].
+  split; [|split; [exact (read_graph_pos_attrs s g H)|exact (read_molfile_known_elements s g H)]].
+  intros x Hx. exact (proj1 (RZ.read_molfile_nozero s g H x Hx)).
+Qed.
 
 (* ------------------------------------------------------------------------------------ *)
-(* 2. what the readers do NOT guarantee on arbitrary text                                *)
+(* 2. what the readers reject                                                            *)
 (* ------------------------------------------------------------------------------------ *)
-(* Two hypotheses of tucan_in_grammar / tucan_layout are not consequences of "the text was read":
+(* Two hypotheses of tucan_in_grammar / tucan_layout used to be open on arbitrary text:
 
-   (a) no self-bond.  The bond block may name the same atom twice ("M  V30 1 1 1 1"); both readers
-       only check that the indices exist, and nx.Graph keeps the loop.  The pipeline then emits the
-       tuple (1-1): the string still lexes, but it violates the layout rule a < b and the reference
-       reader rejects it (ESelfLoop).
-   (b) positive mass / radical values.  The readers drop zeros (ReadersNoZero) but store any other
-       integer: "MASS=-3", "RAD=-1" are kept.  The serializer prints "mass=-3", which is not a
-       sentence (node_property_value ::= greater_than_zero).
+   (a) no self-bond.  A bond block may name the same atom twice ("M  V30 1 1 1 1").  nx.Graph would
+       keep the loop and the pipeline would emit the tuple (1-1), which violates the layout rule
+       a < b and which the reference reader rejects (ESelfLoop, see ex_selfbond_string below).
+   (b) positive mass / radical values.  "MASS=-3", "RAD=-1": the serializer would print "mass=-3",
+       which is not a sentence (node_property_value ::= greater_than_zero).
 
-   A file that follows the CTfile specification has neither (bonds join two different atoms; MASS is
-   an absolute atomic mass, RAD a code in 0..3); section 4 discharges both for every rendering of a
-   well-formed abstract molecule with non-negative stated values. *)
+   Both readers now raise MolfileParserException on such a file, so both are consequences of
+   "the text was read" (section 1).  The two texts below are the witnesses that used to be accepted:
+   the model reader rejects them. *)
 
 Definition nl : text := [ascii_of_N 10].
 Definition ex_header : list text :=
@@ -226,50 +228,34 @@ Definition graph_view (r : res (mol rpay Z)) : option (list (N * N * option Z * 
 Definition run_text (s : text) : option text :=
   match V2000.read_molfile s with inr g => tucan RefCanon.ref_canon g | inl _ => None end.
 
-(* (a) the reader accepts the text and returns a graph with the bond 0-0 *)
-Example ex_selfbond_read :
-  graph_view (V2000.read_molfile ex_selfbond_text)
-  = Some ([(0, 6, None, None); (1, 8, None, None)]%N, [(0%N, 0%N, 1%Z); (0%N, 1%N, 1%Z)]).
+(* (a) the file with the bond line "1 1 1 1" is rejected ... *)
+Lemma ex_selfbond_rejected : V2000.read_molfile ex_selfbond_text = inl EParser.
 Proof. vm_compute. reflexivity. Qed.
 
+(* ... and without that line it is read: the self-bond is the only reason *)
+Definition ex_selfbond_text_repaired : text := join_with nl (ex_header ++
+  [t "M  V30 COUNTS 2 1 0 0 0"; t "M  V30 BEGIN ATOM";
+   t "M  V30 1 C 0 0 0 0"; t "M  V30 2 O 1 0 0 0";
+   t "M  V30 END ATOM"; t "M  V30 BEGIN BOND";
+   t "M  V30 2 1 1 2";
+   t "M  V30 END BOND"; t "M  V30 END CTAB"; t "M  END"]).
+Example ex_selfbond_repaired_read :
+  graph_view (V2000.read_molfile ex_selfbond_text_repaired)
+  = Some ([(0, 6, None, None); (1, 8, None, None)]%N, [(0%N, 1%N, 1%Z)])
+  /\ run_text ex_selfbond_text_repaired = Some (t "CO/(1-2)").
+Proof. vm_compute. split; reflexivity. Qed.
+
+(* the string a self-bond would give is not a TUCAN string: the reference reader rejects it *)
 Definition ex_selfbond_string : text := t "CO/(1-1)(1-2)".
-Definition ex_selfbond_tokens : list token :=
-  [TSym 6; TSym 8; TSlash; TLp; TNum 1; TDash; TNum 1; TRp; TLp; TNum 1; TDash; TNum 2; TRp].
-
-(* the pipeline (reference oracle) emits a string for it that the reference reader rejects ... *)
-Example ex_selfbond_run :
-  run_text ex_selfbond_text = Some ex_selfbond_string /\
-  lex_text ex_selfbond_string = Some ex_selfbond_tokens /\
-  ref_parse ex_selfbond_string = inl ESelfLoop.
-Proof. vm_compute. repeat split. Qed.
-
-(* ... and that violates the layout (the conclusion of tucan_layout is false for this string) *)
-Example ex_selfbond_no_layout : forall ts (m2 : mol rpay Z) syms,
-  lex_text ex_selfbond_string = Some ts -> parse_tokens ts = Some (ast_of m2 syms) ->
-  ~ Layout.layout_ok m2 (ast_of m2 syms).
-Proof.
-  intros ts m2 syms Hl Hp HL.
-  assert (E : lex_text ex_selfbond_string = Some ex_selfbond_tokens) by (vm_compute; reflexivity).
-  rewrite E in Hl. injection Hl as <-.
-  assert (Ep : parse_tokens ex_selfbond_tokens = Some (mkAst [(6%N, 1%Z); (8%N, 1%Z)] [(1, 1); (1, 2)]%Z []))
-    by (vm_compute; reflexivity).
-  rewrite Ep in Hp.
-  assert (Ha : ast_of m2 syms = mkAst [(6%N, 1%Z); (8%N, 1%Z)] [(1, 1); (1, 2)]%Z []) by congruence.
-  destruct (Layout.lo_tuples_range _ _ HL 1%Z 1%Z) as (_ & Hlt & _); [rewrite Ha; left; reflexivity|lia].
-Qed.
-
-(* (b) the reader accepts the text and stores the negative values *)
-Example ex_negative_read :
-  graph_view (V2000.read_molfile ex_negative_text)
-  = Some ([(0%N, 6%N, Some (-3)%Z, None); (1%N, 8%N, None, Some (-1)%Z)], [(0%N, 1%N, 1%Z)]).
+Example ex_selfbond_string_rejected : ref_parse ex_selfbond_string = inl ESelfLoop.
 Proof. vm_compute. reflexivity. Qed.
 
+(* (b) the file with MASS=-3 / RAD=-1 is rejected (each of the two values alone suffices) *)
+Lemma ex_negative_rejected : V2000.read_molfile ex_negative_text = inl EParser.
+Proof. vm_compute. reflexivity. Qed.
+
+(* the string negative values would give is not a sentence of the grammar *)
 Definition ex_negative_string : text := t "CO/(1-2)/(1:mass=-3)(2:rad=-1)".
-
-Example ex_negative_run : run_text ex_negative_text = Some ex_negative_string.
-Proof. vm_compute. reflexivity. Qed.
-
-(* the emitted string is not a sentence of the grammar (the conclusion of tucan_in_grammar is false) *)
 Example ex_negative_no_sentence : forall ts a,
   lex_text ex_negative_string = Some ts -> ~ ParseProofs.Sentence ts a.
 Proof.
@@ -279,11 +265,17 @@ Proof.
   intros Hl. injection Hl as <-. intros HS. vm_compute in HS. discriminate HS.
 Qed.
 
+(* "at least one atom" stays a hypothesis below: a file that announces no atom is read, into the empty
+   graph, and the pipeline returns no string for it *)
+Definition ex_empty_text : text := join_with nl (ex_header ++
+  [t "M  V30 COUNTS 0 0 0 0 0"; t "M  V30 BEGIN ATOM"; t "M  V30 END ATOM"; t "M  V30 END CTAB"; t "M  END"]).
+Example ex_empty_read :
+  graph_view (V2000.read_molfile ex_empty_text) = Some ([], []) /\ run_text ex_empty_text = None.
+Proof. vm_compute. split; reflexivity. Qed.
+
 (* ------------------------------------------------------------------------------------ *)
 (* 3. the closure for the readers: any text                                              *)
 (* ------------------------------------------------------------------------------------ *)
-
-Definition has_no_self_bond {P B} (m : mol P B) : Prop := forall b, In b (bonds m) -> fst (ends b) <> snd (ends b).
 
 Section Closure.
   Variable canon : list (N * N) -> list (N * N) -> list (N * N).
@@ -311,33 +303,27 @@ Section Closure.
     exists c, ts, m2, syms, h. split; [exact Hc|exact H].
   Qed.
 
-  (* C05 for the readers.  For EVERY text s the entry point reads, provided the graph has an atom, no
-     bond from an atom to itself and no non-positive stored mass / radical (section 2: these are
-     not implied), the pipeline returns a string, and that string is the spelling of a sentence of the
-     published grammar. *)
+  (* C05 for the readers.  For EVERY text s the entry point reads, provided the graph has an atom (the
+     only hypothesis left: a file with "COUNTS 0 0" is read into the empty graph, for which the pipeline
+     returns nothing), the pipeline returns a string, and that string is the spelling of a sentence of
+     the published grammar. *)
   Theorem molfile_text_in_grammar : forall (s : text) (g : mol rpay Z),
-    V2000.read_molfile s = ok g -> atoms g <> [] -> has_no_self_bond g -> pos_attrs g ->
+    V2000.read_molfile s = ok g -> atoms g <> [] ->
     exists c ts a, tucan canon g = Some c /\ lex_text c = Some ts /\ ParseProofs.Sentence ts a /\ print_tokens ts = c.
   Proof.
-    intros s g H Hne Hl Hp. destruct (read_graph_props s g H) as (_ & Hs & _ & Hk).
-    exact (graph_in_grammar g (read_graph_wfg s g H Hl) Hs Hp Hne Hk).
+    intros s g H Hne. destruct (read_graph_props s g H) as (Hw & Hs & _ & Hp & Hk).
+    exact (graph_in_grammar g Hw Hs Hp Hne Hk).
   Qed.
 
   Theorem molfile_text_layout : forall (s : text) (g : mol rpay Z),
-    V2000.read_molfile s = ok g -> atoms g <> [] -> has_no_self_bond g -> pos_attrs g ->
+    V2000.read_molfile s = ok g -> atoms g <> [] ->
     exists c ts (m2 : mol rpay Z) syms h,
       tucan canon g = Some c /\ print_tokens ts = c /\ lex_text c = Some ts /\ parse_tokens ts = Some (ast_of m2 syms) /\
       SameMol h g m2 /\ ser_ready m2 /\ Layout.layout_ok m2 (ast_of m2 syms).
   Proof.
-    intros s g H Hne Hl Hp. destruct (read_graph_props s g H) as (_ & Hs & _ & Hk).
-    exact (graph_layout g (read_graph_wfg s g H Hl) Hs Hp Hne Hk).
+    intros s g H Hne. destruct (read_graph_props s g H) as (Hw & Hs & _ & Hp & Hk).
+    exact (graph_layout g Hw Hs Hp Hne Hk).
   Qed.
-
-  (* the same with "no negative value" in place of "positive": zeros are never stored *)
-  Corollary molfile_text_in_grammar_nonneg : forall (s : text) (g : mol rpay Z),
-    V2000.read_molfile s = ok g -> atoms g <> [] -> has_no_self_bond g -> nonneg_attrs g ->
-    exists c ts a, tucan canon g = Some c /\ lex_text c = Some ts /\ ParseProofs.Sentence ts a /\ print_tokens ts = c.
-  Proof. intros s g H Hne Hl Hn. exact (molfile_text_in_grammar s g H Hne Hl (read_graph_pos_attrs s g H Hn)). Qed.
 End Closure.
 
 (* ------------------------------------------------------------------------------------ *)
@@ -345,13 +331,8 @@ End Closure.
 (* ------------------------------------------------------------------------------------ *)
 
 (* ---- V3000 ---- *)
-(* at least one atom entry (not only star atoms); stated masses / radicals are not negative *)
+(* at least one atom entry (not only star atoms) *)
 Definition has_atom3 (M : R3.molM) : Prop := exists a, In (Some a) (R3.m_entries M).
-Definition stated_nonneg3 (M : R3.molM) : Prop :=
-  forall a, In (Some a) (R3.m_entries M) -> (0 <= R3.a_mass a)%Z /\ (0 <= R3.a_rad a)%Z.
-
-Lemma nz_some v w : R3.nz v = Some w -> w = v.
-Proof. unfold R3.nz. destruct (Z.eqb v 0); [discriminate|]. intros E. injection E as <-. reflexivity. Qed.
 
 Lemma m_atoms_nonempty es : forall i a, In (Some a) es -> R3.m_atoms i es <> [].
 Proof.
@@ -359,63 +340,10 @@ Proof.
   destruct H as [E|H]; [discriminate E|apply (IH _ _ H)].
 Qed.
 
-(* D / T contribute the masses 2 / 3; otherwise the stated values are kept *)
-Lemma m_atom_nonneg i a : (0 <= R3.a_mass a)%Z -> (0 <= R3.a_rad a)%Z ->
-  (forall v, mass (R3.m_atom i a) = Some v -> (0 <= v)%Z) /\ (forall v, rad (R3.m_atom i a) = Some v -> (0 <= v)%Z).
-Proof.
-  intros Hm Hr. unfold R3.m_atom, R3.iso_of.
-  destruct (text_eqb (R3.a_sym a) (t "D")); [|destruct (text_eqb (R3.a_sym a) (t "T"))];
-    cbn [mass rad Z.eqb]; split; intros v E; apply nz_some in E; subst v; lia.
-Qed.
-
-Lemma m_atoms_nonneg es : forall i,
-  (forall a, In (Some a) es -> (0 <= R3.a_mass a)%Z /\ (0 <= R3.a_rad a)%Z) ->
-  forall x, In x (R3.m_atoms i es) ->
-  (forall v, mass x = Some v -> (0 <= v)%Z) /\ (forall v, rad x = Some v -> (0 <= v)%Z).
-Proof.
-  induction es as [|[a|] es IH]; intros i H x Hx; cbn [R3.m_atoms] in Hx; [destruct Hx| |].
-  - destruct Hx as [<-|Hx].
-    + destruct (H a (or_introl eq_refl)) as [Hm Hr]. exact (m_atom_nonneg i a Hm Hr).
-    + apply (IH (N.succ i)); [|exact Hx]. intros b Hb. apply H. right. exact Hb.
-  - apply (IH i); [|exact Hx]. intros b Hb. apply H. right. exact Hb.
-Qed.
-
-Lemma graph_of_nonneg M : stated_nonneg3 M -> nonneg_attrs (R3.graph_of M).
-Proof. intros H x Hx. exact (m_atoms_nonneg _ 0%N H x Hx). Qed.
-
 Lemma graph_of_nonempty M : has_atom3 M -> atoms (R3.graph_of M) <> [].
 Proof. intros [a Ha]. exact (m_atoms_nonempty _ 0%N a Ha). Qed.
 
 (* ---- V2000 ---- *)
-Definition stated_nonneg2 (M : R2.mol2) : Prop :=
-  forall a, In a (R2.m_atoms M) -> (0 <= R2.a_mass a)%Z /\ (0 <= R2.a_rad a)%Z.
-
-Lemma nzz_some v w : R2.nzz v = Some w -> w = v.
-Proof. unfold R2.nzz. destruct (Z.eqb v 0); [discriminate|]. intros E. injection E as <-. reflexivity. Qed.
-
-(* the only look at the generated isotope table: no negative mass *)
-Lemma isotope_table_nonneg : forallb (fun p => Z.leb 0 (snd (snd p))) Elements.hydrogen_isotope_table = true.
-Proof. vm_compute. reflexivity. Qed.
-
-Lemma detect_isotope_nonneg s : (0 <= snd (detect_isotope s))%Z.
-Proof.
-  unfold detect_isotope, hydrogen_isotopes. generalize isotope_table_nonneg. generalize Elements.hydrogen_isotope_table.
-  induction l as [|[k [e v]] r IH]; cbn [map assoc_text forallb fst snd]; intros Hc; [cbn; lia|].
-  apply andb_prop in Hc. destruct Hc as [Hv Hr].
-  destruct (text_eqb (t k) s); [cbn [snd]; apply Z.leb_le, Hv|apply IH, Hr].
-Qed.
-
-Lemma graph2000_nonneg M : stated_nonneg2 M -> nonneg_attrs (R2.graph2000 M).
-Proof.
-  intros H x Hx. cbn [R2.graph2000 atoms] in Hx. apply in_map_iff in Hx. destruct Hx as (p & <- & Hp).
-  apply RZ.enum_snd_in in Hp. destruct (H _ Hp) as [Hm Hr]. unfold R2.graph_atom. cbn [mass rad].
-  split; intros v E.
-  - destruct (R2.nzz (R2.a_mass (snd p))) as [w|] eqn:Ew.
-    + injection E as <-. apply nzz_some in Ew. subst w. exact Hm.
-    + unfold R2.sym_mass in E. apply nzz_some in E. subst v. apply detect_isotope_nonneg.
-  - apply nzz_some in E. subst v. exact Hr.
-Qed.
-
 Lemma graph2000_nonempty M : R2.m_atoms M <> [] -> atoms (R2.graph2000 M) <> [].
 Proof. intros H. cbn [R2.graph2000 atoms]. destruct (R2.m_atoms M); [congruence|discriminate]. Qed.
 
@@ -423,81 +351,60 @@ Section Files.
   Variable canon : list (N * N) -> list (N * N) -> list (N * N).
   Hypothesis HH1 : H1 canon.
 
-  (* what the theorems need about the graph of a rendered file, from the abstract molecule *)
-  Lemma v3000_graph_ready M ch eol : R3.okM M -> NI.loopfree3 M -> has_atom3 M -> stated_nonneg3 M ->
-    R3.okch M ch -> R3.okch_text ch ->
-    V2000.read_molfile (R3.file_text eol 0 (R3.render3000 M ch)) = ok (R3.graph_of M) /\
-    atoms (R3.graph_of M) <> [] /\ has_no_self_bond (R3.graph_of M) /\ pos_attrs (R3.graph_of M).
-  Proof.
-    intros HM HL Ha Hn Hc Ht. pose proof (R3.read_molfile_graph M ch eol HM Hc Ht) as Hr.
-    split; [exact Hr|]. split; [exact (graph_of_nonempty M Ha)|]. split.
-    - intros b Hb. exact (proj1 (proj2 (NI.graph_of_wfg M HM HL) b Hb)).
-    - exact (read_graph_pos_attrs _ _ Hr (graph_of_nonneg M Hn)).
-  Qed.
-
-  (* C05 for V3000 files.  M: any well-formed abstract molecule (R3.okM) without self-bonds, with an
-     atom and without negative stated masses / radicals; ch: any admissible rendering choices (header
-     lines, index values, blank runs, continuation points, order and repetition of CHG= / RAD= / MASS=,
-     explicit defaults, foreign keywords, trailing blocks); eol: CR LF or LF line by line.  The text is
-     read, the pipeline returns a string for the graph read, and the string is a sentence. *)
+  (* C05 for V3000 files.  M: any well-formed abstract molecule (R3.okM: this now contains "no bond line
+     joins an atom to itself" and "no negative stated mass / radical", without which the reader rejects
+     the file) with an atom; ch: any admissible rendering choices (header lines, index values, blank runs,
+     continuation points, order and repetition of CHG= / RAD= / MASS=, explicit defaults, foreign
+     keywords, trailing blocks); eol: CR LF or LF line by line.  The text is read, the pipeline returns a
+     string for the graph read, and the string is a sentence. *)
   Theorem v3000_file_in_grammar : forall (M : R3.molM) (ch : R3.choices) (eol : nat -> bool),
-    R3.okM M -> NI.loopfree3 M -> has_atom3 M -> stated_nonneg3 M -> R3.okch M ch -> R3.okch_text ch ->
+    R3.okM M -> has_atom3 M -> R3.okch M ch -> R3.okch_text ch ->
     exists g c ts a,
       V2000.read_molfile (R3.file_text eol 0 (R3.render3000 M ch)) = ok g /\
       tucan canon g = Some c /\ lex_text c = Some ts /\ ParseProofs.Sentence ts a /\ print_tokens ts = c.
   Proof.
-    intros M ch eol HM HL Ha Hn Hc Ht. destruct (v3000_graph_ready M ch eol HM HL Ha Hn Hc Ht) as (Hr & Hne & Hl & Hp).
-    destruct (molfile_text_in_grammar canon HH1 _ _ Hr Hne Hl Hp) as (c & ts & a & H).
+    intros M ch eol HM Ha Hc Ht. pose proof (R3.read_molfile_graph M ch eol HM Hc Ht) as Hr.
+    destruct (molfile_text_in_grammar canon HH1 _ _ Hr (graph_of_nonempty M Ha)) as (c & ts & a & H).
     exists (R3.graph_of M), c, ts, a. split; [exact Hr|exact H].
   Qed.
 
   Theorem v3000_file_layout : forall (M : R3.molM) (ch : R3.choices) (eol : nat -> bool),
-    R3.okM M -> NI.loopfree3 M -> has_atom3 M -> stated_nonneg3 M -> R3.okch M ch -> R3.okch_text ch ->
+    R3.okM M -> has_atom3 M -> R3.okch M ch -> R3.okch_text ch ->
     exists g c ts (m2 : mol rpay Z) syms h,
       V2000.read_molfile (R3.file_text eol 0 (R3.render3000 M ch)) = ok g /\
       tucan canon g = Some c /\ print_tokens ts = c /\ lex_text c = Some ts /\ parse_tokens ts = Some (ast_of m2 syms) /\
       SameMol h g m2 /\ ser_ready m2 /\ Layout.layout_ok m2 (ast_of m2 syms).
   Proof.
-    intros M ch eol HM HL Ha Hn Hc Ht. destruct (v3000_graph_ready M ch eol HM HL Ha Hn Hc Ht) as (Hr & Hne & Hl & Hp).
-    destruct (molfile_text_layout canon HH1 _ _ Hr Hne Hl Hp) as (c & ts & m2 & syms & h & H).
+    intros M ch eol HM Ha Hc Ht. pose proof (R3.read_molfile_graph M ch eol HM Hc Ht) as Hr.
+    destruct (molfile_text_layout canon HH1 _ _ Hr (graph_of_nonempty M Ha)) as (c & ts & m2 & syms & h & H).
     exists (R3.graph_of M), c, ts, m2, syms, h. split; [exact Hr|exact H].
   Qed.
 
-  Lemma v2000_graph_ready M ch eol : NI.okfile2000 M ch -> NI.loopfree2 M -> R2.m_atoms M <> [] -> stated_nonneg2 M ->
-    V2000.read_molfile (R3.file_text eol 0 (R2.render2000 M ch)) = ok (R2.graph2000 M) /\
-    atoms (R2.graph2000 M) <> [] /\ has_no_self_bond (R2.graph2000 M) /\ pos_attrs (R2.graph2000 M).
-  Proof.
-    intros HF HL Ha Hn. pose proof (NI.okfile2000_read M ch eol HF) as Hr.
-    split; [exact Hr|]. split; [exact (graph2000_nonempty M Ha)|]. split.
-    - intros b Hb. exact (proj1 (proj2 (NI.graph2000_wfg M (NI.of_M _ _ HF) HL) b Hb)).
-    - exact (read_graph_pos_attrs _ _ Hr (graph2000_nonneg M Hn)).
-  Qed.
-
-  (* C05 for V2000 files.  M: any well-formed abstract molecule (okM2000, inside okfile2000) without
-     self-bonds, with an atom and without negative stated masses / radicals; ch: any admissible rendering
-     (header lines, blank or zero fields, unread columns, stale charge codes, atom list and stext lines,
-     grouping and order of M  CHG / RAD / ISO entries, unrelated property lines, aliases, trailer);
-     eol: CR LF or LF line by line. *)
+  (* C05 for V2000 files.  M: any well-formed abstract molecule with an atom and ch any admissible
+     rendering (okM2000, okch2000 inside okfile2000: the two atom numbers of a bond line differ, no
+     negative value on an M  RAD / M  ISO line; header lines, blank or zero fields, unread columns, stale
+     charge codes, atom list and stext lines, grouping and order of M  CHG / RAD / ISO entries, unrelated
+     property lines, aliases, trailer); eol: CR LF or LF line by line. *)
   Theorem v2000_file_in_grammar : forall (M : R2.mol2) (ch : R2.choices) (eol : nat -> bool),
-    NI.okfile2000 M ch -> NI.loopfree2 M -> R2.m_atoms M <> [] -> stated_nonneg2 M ->
+    NI.okfile2000 M ch -> R2.m_atoms M <> [] ->
     exists g c ts a,
       V2000.read_molfile (R3.file_text eol 0 (R2.render2000 M ch)) = ok g /\
       tucan canon g = Some c /\ lex_text c = Some ts /\ ParseProofs.Sentence ts a /\ print_tokens ts = c.
   Proof.
-    intros M ch eol HF HL Ha Hn. destruct (v2000_graph_ready M ch eol HF HL Ha Hn) as (Hr & Hne & Hl & Hp).
-    destruct (molfile_text_in_grammar canon HH1 _ _ Hr Hne Hl Hp) as (c & ts & a & H).
+    intros M ch eol HF Ha. pose proof (NI.okfile2000_read M ch eol HF) as Hr.
+    destruct (molfile_text_in_grammar canon HH1 _ _ Hr (graph2000_nonempty M Ha)) as (c & ts & a & H).
     exists (R2.graph2000 M), c, ts, a. split; [exact Hr|exact H].
   Qed.
 
   Theorem v2000_file_layout : forall (M : R2.mol2) (ch : R2.choices) (eol : nat -> bool),
-    NI.okfile2000 M ch -> NI.loopfree2 M -> R2.m_atoms M <> [] -> stated_nonneg2 M ->
+    NI.okfile2000 M ch -> R2.m_atoms M <> [] ->
     exists g c ts (m2 : mol rpay Z) syms h,
       V2000.read_molfile (R3.file_text eol 0 (R2.render2000 M ch)) = ok g /\
       tucan canon g = Some c /\ print_tokens ts = c /\ lex_text c = Some ts /\ parse_tokens ts = Some (ast_of m2 syms) /\
       SameMol h g m2 /\ ser_ready m2 /\ Layout.layout_ok m2 (ast_of m2 syms).
   Proof.
-    intros M ch eol HF HL Ha Hn. destruct (v2000_graph_ready M ch eol HF HL Ha Hn) as (Hr & Hne & Hl & Hp).
-    destruct (molfile_text_layout canon HH1 _ _ Hr Hne Hl Hp) as (c & ts & m2 & syms & h & H).
+    intros M ch eol HF Ha. pose proof (NI.okfile2000_read M ch eol HF) as Hr.
+    destruct (molfile_text_layout canon HH1 _ _ Hr (graph2000_nonempty M Ha)) as (c & ts & m2 & syms & h & H).
     exists (R2.graph2000 M), c, ts, m2, syms, h. split; [exact Hr|exact H].
   Qed.
 
@@ -540,12 +447,8 @@ Module Example.
      under mixed line ends *)
   Example formA_has_atom : has_atom3 E.formA.
   Proof. eexists. left. reflexivity. Qed.
-  Example formA_nonneg : stated_nonneg3 E.formA.
-  Proof. intros a H. cbn in H. decompose [or] H; try contradiction; match goal with E : Some _ = Some a |- _ => injection E as <- end; cbn; lia. Qed.
   Example form2_has_atom : R2.m_atoms E.form2 <> [].
   Proof. discriminate. Qed.
-  Example form2_nonneg : stated_nonneg2 E.form2.
-  Proof. intros a H. cbn in H. decompose [or] H; try contradiction; subst a; cbn; lia. Qed.
 
   (* the string, computed by running the executable model on the file texts *)
   Example formate_files_computed :
@@ -559,7 +462,7 @@ Module Example.
     tucan ref g = Some c /\ lex_text c = Some ts /\ ParseProofs.Sentence ts a /\ print_tokens ts = c.
   Proof.
     exact (v3000_file_in_grammar ref RefCanon.ref_canon_H1 E.formA E.chA E.crlf
-             E.formA_ok E.formA_loopfree formA_has_atom formA_nonneg E.chA_ok E.chA_text_ok).
+             E.formA_ok formA_has_atom E.chA_ok E.chA_text_ok).
   Qed.
   Example formate_v3000_layout : exists g c ts (m2 : mol rpay Z) syms h,
     V2000.read_molfile (R3.file_text E.crlf 0 (R3.render3000 E.formA E.chA)) = ok g /\
@@ -567,14 +470,14 @@ Module Example.
     SameMol h g m2 /\ ser_ready m2 /\ Layout.layout_ok m2 (ast_of m2 syms).
   Proof.
     exact (v3000_file_layout ref RefCanon.ref_canon_H1 E.formA E.chA E.crlf
-             E.formA_ok E.formA_loopfree formA_has_atom formA_nonneg E.chA_ok E.chA_text_ok).
+             E.formA_ok formA_has_atom E.chA_ok E.chA_text_ok).
   Qed.
   Example formate_v2000_in_grammar : exists g c ts a,
     V2000.read_molfile (R3.file_text E.mixed 0 (R2.render2000 E.form2 E.ch2)) = ok g /\
     tucan ref g = Some c /\ lex_text c = Some ts /\ ParseProofs.Sentence ts a /\ print_tokens ts = c.
   Proof.
     exact (v2000_file_in_grammar ref RefCanon.ref_canon_H1 E.form2 E.ch2 E.mixed
-             E.file2_ok E.form2_loopfree form2_has_atom form2_nonneg).
+             E.file2_ok form2_has_atom).
   Qed.
 
   (* the string the theorem speaks about is the computed one, and its token list is explicit *)
@@ -603,20 +506,14 @@ Module Example.
     match V2000.read_molfile zeros_text with inr g => g | inl _ => mkMol [] [] end.
   Example zeros_read : V2000.read_molfile zeros_text = ok zeros_graph.
   Proof. vm_compute. reflexivity. Qed.
-  Example zeros_hyps : atoms zeros_graph <> [] /\ has_no_self_bond zeros_graph /\ nonneg_attrs zeros_graph.
-  Proof.
-    split; [vm_compute; discriminate|]. split.
-    - intros b Hb. vm_compute in Hb. decompose [or] Hb; try contradiction; subst b; vm_compute; discriminate.
-    - intros x Hx. vm_compute in Hx. decompose [or] Hx; try contradiction; subst x; cbn [mass rad];
-        split; intros v E; try discriminate E; injection E as <-; lia.
-  Qed.
+  Example zeros_hyps : atoms zeros_graph <> [].
+  Proof. vm_compute. discriminate. Qed.
   Example zeros_in_grammar : exists ts a,
     tucan ref zeros_graph = Some (t "CHO/(1-2)(2-3)/(1:mass=2)(3:rad=2)") /\
     lex_text (t "CHO/(1-2)(2-3)/(1:mass=2)(3:rad=2)") = Some ts /\ ParseProofs.Sentence ts a /\
     print_tokens ts = t "CHO/(1-2)(2-3)/(1:mass=2)(3:rad=2)".
   Proof.
-    destruct zeros_hyps as (Hne & Hl & Hn).
-    destruct (molfile_text_in_grammar_nonneg ref RefCanon.ref_canon_H1 _ _ zeros_read Hne Hl Hn) as (c & ts & a & Hc & H).
+    destruct (molfile_text_in_grammar ref RefCanon.ref_canon_H1 _ _ zeros_read zeros_hyps) as (c & ts & a & Hc & H).
     assert (Ec : tucan ref zeros_graph = Some (t "CHO/(1-2)(2-3)/(1:mass=2)(3:rad=2)")) by (vm_compute; reflexivity).
     rewrite Ec in Hc. injection Hc as <-. exists ts, a. split; [exact Ec|exact H].
   Qed.
@@ -645,7 +542,10 @@ Print Assumptions v2000_file_in_grammar.
 Print Assumptions v2000_file_layout.
 Print Assumptions tucan_string_in_grammar.
 Print Assumptions tucan_string_layout.
-Print Assumptions ex_selfbond_no_layout.
+Print Assumptions read_graph_wfg.
+Print Assumptions read_graph_pos_attrs.
+Print Assumptions ex_selfbond_rejected.
+Print Assumptions ex_negative_rejected.
 Print Assumptions ex_negative_no_sentence.
 Print Assumptions Example.formate_v3000_sentence.
 Print Assumptions Example.zeros_in_grammar.
